@@ -56,6 +56,8 @@ def block(rnd, scope, fns, depth, inloop, infn, ctr, may_be_empty=False):
                 out.append({'k': 'expr', 'e': J.call('probe', J.num(rnd.randint(0, 99)), rexp(rnd, scope, fns))})
             elif c < 0.87 and inloop:
                 out.append({'k': rnd.choice(['break', 'continue'])})
+                if rnd.random() < 0.25:
+                    out.append({'k': rnd.choice(['break', 'continue'])})      # an unreachable second one (still lowered)
                 break
             elif c < 0.92 and infn:
                 out.append({'k': 'return', 'hasE': True, 'e': rexp(rnd, scope, fns)})
